@@ -327,6 +327,22 @@ def run_fit(W, cfg):
         W.ob_close(f'no residual tip [{g}]', W.sum((v - mean) * rr for rr, cc, v in res), 0, 1e-9)
         W.ob_close(f'no residual tilt [{g}]', W.sum((v - mean) * cc for rr, cc, v in res), 0, 1e-9)
 
+    if nseg > 1 and not cfg.get('intopd'):
+        # a second fit after the OPD changed: every field of the product carries both fitted tilts of its segment
+        ramp = rnp.array([[0.125 * (r - shp[0] // 2) * ps[0] - 0.25 * (c - shp[1] // 2) * ps[1] for c in range(shp[1])] for r in range(shp[0])])
+        q.opd = q.opd + ramp * (mask.sum(axis=0) > 0)
+        q.fit_tilt(inplace=True)
+        W.ob_true('two Tilts per segment after the second fit', len(q.tilt) == 2 * nseg)
+        w2 = lt.Wavefront(W.real('lam', pos=True)) * q
+        W.ob_true('one field per segment', len(w2.data) == nseg)
+        for k, fld in enumerate(w2.data):
+            got = fld.shift(z=1, wavelength=1, pixelscale=(1, 1), oversample=1, indexing='xy')
+            xa, ya = q.tilt[k].shift(xs=0, ys=0, z=1)
+            xb, yb = q.tilt[k + nseg].shift(xs=0, ys=0, z=1)
+            W.ob_true(f'field {k} carries both tilts of its segment', len(fld.tilt) == 2)
+            W.ob_close(f'field {k}: displacement = sum of both fitted tilts (x)', got[0], xa + xb, 1e-9)
+            W.ob_close(f'field {k}: displacement = sum of both fitted tilts (y)', got[1], ya + yb, 1e-9)
+
 
 HARNESSES = {
     'shift_algebra': {'configs': cfg_shift, 'run': run_shift, 'small': 4},
